@@ -620,6 +620,7 @@ v('C09 C10', 'fire', 'filters.py', '    if measurements is None:', '    if measu
 v('C09 C10', 'fire', 'filters.py', '    gyro_sd = pd.DataFrame(gyro_sd, index=trajectory.index, columns=gyro_model.states)', '    gyro_sd = pd.DataFrame(gyro_sd, columns=gyro_model.states)', 'survey: result table without its time index')
 v('C10 C11', 'fire', 'filters.py', '    gyro = pd.DataFrame(x_gyro, index=trajectory.index, columns=gyro_model.states)', '    gyro = pd.DataFrame(x_gyro, columns=gyro_model.states)', 'survey: result table without its time index')
 v('C09 C10', 'silent', 'filters.py', '    gyro_sd = pd.DataFrame(gyro_sd, index=trajectory.index, columns=gyro_model.states)', '    gyro_sd = pd.DataFrame(gyro_sd, trajectory.index, gyro_model.states)', 'index and columns passed by position')
+v('C13 C01', 'fire', 'strapdown.py', '                  self.mat_nb, theta, dv, n_data - 1, self.with_altitude)', '                  self.mat_nb, theta, dv, n_data - 1, True)', 'probe: the kernel is run with altitude whatever the stored mode')
 # ------------------------------------------------------------------ geometry C16 C05 C04 C03 C18
 T = 'transform.py'
 v('C16 C05', 'fire', T, '    rn, _, rp = earth.principal_radii(lla[:, 0], lla[:, 2])\n\n    lla[:, 0] +=',
